@@ -67,6 +67,14 @@ func statusFilterIn(r *Run, f *core.FuncInfo, depth int) bool {
 }
 
 func init() {
+	extend("C14", "R14f (added after a seeded change was missed): the per-address transaction counter is a read-modify-write on the block's local cache; the new value is written back before it is returned on both polarities, so that several occurrences of one address inside a block see each other's updates when the block is removed as well as when it is added.",
+		rule("R14f", "counter updates are written back to the cache on add and on remove", 1, func(r *Run) {
+			fn := "executor.updateAddrTxsCount"
+			core.Dominated{Fn: fn, Spec: &core.FlowSpec{Calls: []core.CallGuard{{Fact: "written-back", Callee: core.Names("executor.setAddrTxsCount"), Pass: core.OErrNil, Idx: -1, NoArgDeps: true,
+				ArgOK: func(c *core.Ctx, call *ast.CallExpr) bool {
+					return len(call.Args) == 3 && core.IsObj("param:1")(c, call.Args[0]) && core.IsObj("param:2")(c, call.Args[1])
+				}}}}, Sink: core.SuccessReturn(-1), Need: []core.Fact{"written-back"}, Min: 1}.Check(r)
+		}))
 	extend("C14", "R14e (added after a defect report from a seeding run): the add side and the remove side of a built-in executor skip the same transactions — when an executor replaces only one of ExecLocal / ExecDelLocal, the replacement applies the receipt-status filter of the generic dispatcher (callLocal: non-ExecOk receipts produce no local records) that the other side still goes through.",
 		rule("R14e", "add and remove side apply the same receipt-status filter", 3, func(r *Run) {
 			base := r.Fn("system/dapp.(*DriverBase).callLocal")
